@@ -594,6 +594,16 @@ func (fg *FunctionGenerator) GetMethod(value Value, methodName string) (funcGen.
 	}
 }
 
+// IsMethodPure returns false if a method of the given name is declared impure on any type.
+func (fg *FunctionGenerator) IsMethodPure(methodName string) bool {
+	for _, methodMap := range fg.methods {
+		if m, ok := methodMap[methodName]; ok && !m.IsPure {
+			return false
+		}
+	}
+	return true
+}
+
 func (fg *FunctionGenerator) RegisterMethods(id Type, methods MethodMap) *FunctionGenerator {
 	if int(id) >= len(fg.methods) {
 		panic(fmt.Sprintf("id %d is too big", id))
